@@ -23,7 +23,8 @@ SPEC = os.path.join(ROOT, "spec")
 WORK = os.environ.get("VERIF_WORK") or os.path.join(ROOT, "work")
 EVID = os.environ.get("VERIF_EVID") or os.path.join(ROOT, "evidence")
 REPLAYS = os.environ.get("VERIF_REPLAYS") or os.path.join(ROOT, "replays")
-CLASSES = os.path.join(ROOT, "build", "classes")
+CLASSES = os.environ.get("VERIF_CLASSES") or os.path.join(ROOT, "build", "classes")   # override: a builder's private overrides
+JAVA_SRC = os.environ.get("VERIF_JAVA") or os.path.join(SPEC, "java")
 TLA_JAR = "/opt/veriftools/tla/tla2tools.jar"
 CM_JAR = "/opt/veriftools/tla/CommunityModules-deps.jar"
 HARNESS = os.environ.get("VERIF_HARNESS") or os.path.join(ROOT, "harness")  # override: a scratch copy built against a scratch worktree
@@ -54,7 +55,7 @@ def tier(argv_tier=None):
 # Java overrides
 # ----------------------------------------------------------------------------------------
 def ensure_classes():
-    src = [os.path.join(SPEC, "java", f) for f in ("VerifOverrides.java", "VerifOps.java")]
+    src = [os.path.join(JAVA_SRC, f) for f in ("VerifOverrides.java", "VerifOps.java")]
     out = os.path.join(CLASSES, "VerifOps.class")
     if os.path.exists(out) and all(os.path.getmtime(out) >= os.path.getmtime(s) for s in src):
         return
